@@ -52,6 +52,8 @@ def gen_universe(rng, uid, profile):
             pk["locked"] = rng.choice(cands)
         if rng.random() < profile.get("p_excluded", 0):
             pk["excluded"] = rng.sample(cands, rng.randint(1, len(cands)))
+        if pk["locked"] is not None and rng.random() < profile.get("p_locked_excluded", 0.3) and pk["locked"] not in pk["excluded"]:
+            pk["excluded"].append(pk["locked"])        # a candidate that is both locked and excluded
         h = rng.random()
         if h < profile.get("p_hint_all", 0):
             pk["hint"] = "all"
@@ -86,9 +88,22 @@ def gen_universe(rng, uid, profile):
             return {"u": rng.randrange(len(unions))}
         return {"s": rng.randrange(nvs)}
 
+    def vs_of_pkgs(lo, hi):
+        ids = [v["id"] for v in vsets if lo <= v["name"] < hi]
+        return rng.choice(ids) if ids else rng.randrange(nvs)
+
     for s in solvables:
         if rng.random() < profile.get("p_unknown", 0):
             s["deps"] = None
+            continue
+        if profile.get("layered"):
+            # requirements point at later packages (long implication chains, decisions on many levels), constrains
+            # point backwards (conflicts that are only discovered deep in the search)
+            p = s["name"]
+            for _ in range(rng.choice(profile.get("n_req", [1, 1, 2]))):
+                s["deps"]["req"].append({"s": vs_of_pkgs(p + 1, min(npkg, p + 4))} if p + 1 < npkg else rand_req())
+            for _ in range(rng.choice(profile.get("n_con", [0, 1, 1]))):
+                s["deps"]["con"].append(vs_of_pkgs(0, max(1, p)) if rng.random() < 0.7 else rng.randrange(nvs))
             continue
         for _ in range(rng.choice(profile.get("n_req", [0, 0, 1, 1, 2]))):
             s["deps"]["req"].append(rand_req())
@@ -126,6 +141,13 @@ FAMILIES = {
     # deeper conflicts: more packages, every solvable has requirements and constrains -> learning and backjumping
     "hard": dict(max_pkg=8, min_pkg=5, max_cand=3, p_favored=0.1, p_union=0.1, p_vs_empty=0.02, max_vs=4,
                  n_req=[1, 2, 2, 3], n_con=[0, 1, 1, 2], n_root_req=[2, 3, 4], n_root_con=[0, 1]),
+    # layered: requirements go to later packages, constrains back to earlier ones -> many decision levels, conflicts found
+    # deep, learnt clauses spanning several levels, backjumps over more than one level
+    "deep": dict(max_pkg=12, min_pkg=8, max_cand=3, layered=True, p_vs_empty=0.0, max_vs=4, p_favored=0.1,
+                 n_req=[1, 1, 2], n_con=[0, 1, 1, 2], n_root_req=[1, 2, 2], n_root_con=[0, 0, 1]),
+    # constrains that reject several candidates at once, fetched lazily; some hints
+    "lazycon": dict(max_pkg=5, min_pkg=3, max_cand=4, p_vs_empty=0.02, max_vs=5, p_hint_all=0.2, p_hint_some=0.2,
+                    n_req=[1, 1, 2], n_con=[1, 1, 2, 2], n_root_req=[1, 2], n_root_con=[0, 1, 1], p_locked=0.1, p_excluded=0.1),
     "soft": dict(BASE, soft=True),
     "reuse": dict(BASE, reuse=True),
 }
@@ -356,12 +378,20 @@ def check_solve(u, problem, res, stats, want):
         # ---- C08 best direct candidates ------------------------------------------------------------------
         if not soft:
             firsts = []
+            all_single = True
             for r in problem["req"]:
                 names = set(sp.vs[v]["name"] for v in sp.req_vsets(r))
                 if len(names) == 1:      # a union whose members all name one package is a single-package requirement too
                     rk = sp.req_ranked(r)
                     if rk:
                         firsts.append(rk[0])
+                else:
+                    all_single = False
+            # scope (DESIGN 8.4): with a multi-package union among the ROOT requirements the union's own first choice is a
+            # direct choice as well and may legitimately win over another direct requirement; C08 speaks about choices made
+            # for transitive dependencies, so such problems are not evaluated
+            if not all_single:
+                firsts = []
             if firsts:
                 tags.add("C08")
             if firsts and not all(f in sol for f in firsts):
